@@ -271,6 +271,8 @@ def judge_concrete(contract, rep, pre, ca):
     if out['exc'] is not None:
         res = Result('raise', None, out['exc'])
         cond = allowed.get(out['exc'], False)
+        if out['exc'] in getattr(contract, 'raises_in_ensures', ()):
+            cond = True
         if truth_of(cond, E.axioms) is not True:
             failing.append('unexpected exception %s: %s' % (out['exc'], out['exc_msg']))
     else:
@@ -278,6 +280,7 @@ def judge_concrete(contract, rep, pre, ca):
         for exc, cond in allowed.items():
             if truth_of(cond, E.axioms) is not False:
                 failing.append('must-raise.%s' % exc)
+    Kpost.st.locals['__observed__'] = True
     if not (out['exc'] is not None and failing):
         try:
             for nm, cl in contract.ensures(Kpost, ca, Kpre, res):
